@@ -301,11 +301,12 @@ func verifC15Decorate(n *verifC15MNode, s func(k int) verifC15Str, v func(k int)
 }
 
 // phases:
-//   "string":      dense decoration, every text role of every node holds corpus[off], values from {0,1,-1.5}
-//   "value":       dense decoration, plain texts, every value role holds values[off]
-//   "mixed":       dense decoration, strings and values rolling through the whole corpus / value list
-//   "shape-plain": decoration density by node, plain texts and values {0,1,-1.5} (isolates shape / id handling)
-//   "shape-nasty": decoration density by node, strings and values rolling through the whole corpus / value list
+//
+//	"string":      dense decoration, every text role of every node holds corpus[off], values from {0,1,-1.5}
+//	"value":       dense decoration, plain texts, every value role holds values[off]
+//	"mixed":       dense decoration, strings and values rolling through the whole corpus / value list
+//	"shape-plain": decoration density by node, plain texts and values {0,1,-1.5} (isolates shape / id handling)
+//	"shape-nasty": decoration density by node, strings and values rolling through the whole corpus / value list
 func verifC15BuildCase(seq int, phase string, shape *verifC15Shape, rot, off int,
 	corpus, plain []verifC15Str) *verifC15Case {
 	cs := &verifC15Case{Seq: seq, Phase: phase, Shape: shape, Rot: rot, Off: off}
@@ -497,6 +498,24 @@ func verifC15Read(nc *nats.Conn, parent string, depth int) ([]*verifC15RNode, er
 	return ret, nil
 }
 
+// the acknowledge timeout of the client is one second; on a loaded machine a request can time
+// out although nothing is wrong. All harness writes are idempotent, so they are retried.
+func verifC15Retry(f func() error) error {
+	var err error
+	for try := 0; try < 4; try++ {
+		err = f()
+		if err == nil || !strings.Contains(err.Error(), "timeout") {
+			return err
+		}
+		time.Sleep(300 * time.Millisecond)
+	}
+	return err
+}
+
+func verifC15Delete(nc *nats.Conn, id, parent string) error {
+	return verifC15Retry(func() error { return client.DeleteNode(nc, id, parent, "") })
+}
+
 func verifC15Send(nc *nats.Conn, n *verifC15MNode, parent string) error {
 	// half of the points go with SendNode, the rest afterwards with SendNodePoints /
 	// SendEdgePoint(s) (all three entry points are exercised)
@@ -516,20 +535,20 @@ func verifC15Send(nc *nats.Conn, n *verifC15MNode, parent string) error {
 			laterE = append(laterE, p)
 		}
 	}
-	if err := client.SendNode(nc, ne, ""); err != nil {
+	if err := verifC15Retry(func() error { return client.SendNode(nc, ne, "") }); err != nil {
 		return fmt.Errorf("SendNode: %w", err)
 	}
 	if len(laterP) > 0 {
-		if err := client.SendNodePoints(nc, n.ID, laterP, true); err != nil {
+		if err := verifC15Retry(func() error { return client.SendNodePoints(nc, n.ID, laterP, true) }); err != nil {
 			return fmt.Errorf("SendNodePoints: %w", err)
 		}
 	}
 	if len(laterE) == 1 {
-		if err := client.SendEdgePoint(nc, n.ID, parent, laterE[0], true); err != nil {
+		if err := verifC15Retry(func() error { return client.SendEdgePoint(nc, n.ID, parent, laterE[0], true) }); err != nil {
 			return fmt.Errorf("SendEdgePoint: %w", err)
 		}
 	} else if len(laterE) > 1 {
-		if err := client.SendEdgePoints(nc, n.ID, parent, laterE, true); err != nil {
+		if err := verifC15Retry(func() error { return client.SendEdgePoints(nc, n.ID, parent, laterE, true) }); err != nil {
 			return fmt.Errorf("SendEdgePoints: %w", err)
 		}
 	}
@@ -539,7 +558,7 @@ func verifC15Send(nc *nats.Conn, n *verifC15MNode, parent string) error {
 		}
 	}
 	if n.Deleted {
-		if err := client.DeleteNode(nc, n.ID, parent, ""); err != nil {
+		if err := verifC15Delete(nc, n.ID, parent); err != nil {
 			return fmt.Errorf("DeleteNode: %w", err)
 		}
 	}
@@ -547,8 +566,10 @@ func verifC15Send(nc *nats.Conn, n *verifC15MNode, parent string) error {
 }
 
 func verifC15NewGroup(nc *nats.Conn, id, parent, desc string) error {
-	return client.SendNode(nc, data.NodeEdge{ID: id, Type: data.NodeTypeGroup, Parent: parent,
-		Points: data.Points{{Type: data.PointTypeDescription, Text: desc}}}, "")
+	return verifC15Retry(func() error {
+		return client.SendNode(nc, data.NodeEdge{ID: id, Type: data.NodeTypeGroup, Parent: parent,
+			Points: data.Points{{Type: data.PointTypeDescription, Text: desc}}}, "")
+	})
 }
 
 // model -> what the store is expected to return (live nodes only)
@@ -915,6 +936,7 @@ type verifC15Result struct {
 	Nodes       int              `json:"nodes_built"`
 	Seconds     float64          `json:"seconds"`
 	Legs        string           `json:"legs"`
+	ServerPairs int              `json:"server_generations"`
 }
 
 type verifC15Agg struct {
@@ -1004,7 +1026,10 @@ type verifC15Env struct {
 
 func verifC15RunCase(env *verifC15Env, cs *verifC15Case) (legs int) {
 	nc := env.nc
-	size := len(cs.Live)
+	size := len(cs.Live) * 1000 // smallest reproducer = fewest nodes, then fewest points
+	for _, n := range cs.Live {
+		size += len(n.Points) + len(n.EdgePoints)
+	}
 	repro := fmt.Sprintf("case %v (%v, shape %v, type rotation %v, corpus offset %v): %v",
 		cs.Seq, cs.Phase, cs.Shape, cs.Rot, cs.Off, verifC15Render(cs.Top, false))
 	var yamlData []byte
@@ -1023,8 +1048,8 @@ func verifC15RunCase(env *verifC15Env, cs *verifC15Case) (legs int) {
 	}
 	defer func() {
 		// keep the living tree of the server small
-		_ = client.DeleteNode(nc, p1, env.root, "")
-		_ = client.DeleteNode(nc, p2, env.root, "")
+		_ = verifC15Delete(nc, p1, env.root)
+		_ = verifC15Delete(nc, p2, env.root)
 	}()
 
 	if err := verifC15Send(nc, cs.Top, p1); err != nil {
@@ -1073,7 +1098,21 @@ func verifC15RunCase(env *verifC15Env, cs *verifC15Case) (legs int) {
 
 	// leg (a): new ids below another parent
 	legs++
-	if err := verifC15Import(nc, p2, yamlData, false); err != nil {
+	var errA error
+	for try := 0; try < 3; try++ {
+		errA = verifC15Import(nc, p2, yamlData, false)
+		if errA == nil || !strings.Contains(errA.Error(), "timeout") {
+			break
+		}
+		// an acknowledge timed out: what was imported so far stays below the old parent, use a fresh one
+		_ = verifC15Delete(nc, p2, env.root)
+		p2 = uuid.New().String()
+		if e := verifC15NewGroup(nc, p2, env.root, fmt.Sprintf("c15 dst %v retry", cs.Seq)); e != nil {
+			errA = e
+			break
+		}
+	}
+	if err := errA; err != nil {
 		fail("import error (new ids)", "leg (a): "+err.Error())
 	} else {
 		got, err := verifC15Read(nc, p2, 0)
@@ -1095,7 +1134,7 @@ func verifC15RunCase(env *verifC15Env, cs *verifC15Case) (legs int) {
 		nc2 := env.nc2
 		if err := verifC15NewGroup(nc2, p1, env.root2, "c15 second instance"); err != nil {
 			fail("harness: cannot create parent group", "leg (c): "+err.Error())
-		} else if err := verifC15Import(nc2, p1, yamlData, true); err != nil {
+		} else if err := verifC15Retry(func() error { return verifC15Import(nc2, p1, yamlData, true) }); err != nil {
 			fail("import error (preserved ids, other instance)", "leg (c): "+err.Error())
 		} else {
 			got, err := verifC15Read(nc2, p1, 0)
@@ -1109,13 +1148,13 @@ func verifC15RunCase(env *verifC15Env, cs *verifC15Case) (legs int) {
 					env.agg.report(cs.Seq, size, repro, yamlData, d)
 				}
 			}
-			_ = client.DeleteNode(nc2, p1, env.root2, "")
+			_ = verifC15Delete(nc2, p1, env.root2)
 		}
 	}
 
 	// leg (b): delete the original, restore with preserved ids below the original parent
 	legs++
-	if err := client.DeleteNode(nc, cs.Top.ID, p1, ""); err != nil {
+	if err := verifC15Delete(nc, cs.Top.ID, p1); err != nil {
 		fail("harness: cannot delete the original", err.Error())
 		return
 	}
@@ -1123,7 +1162,7 @@ func verifC15RunCase(env *verifC15Env, cs *verifC15Case) (legs int) {
 		fail("harness: original still listed after delete", fmt.Sprintf("err=%v, %v nodes", err, len(left)))
 		return
 	}
-	if err := verifC15Import(nc, p1, yamlData, true); err != nil {
+	if err := verifC15Retry(func() error { return verifC15Import(nc, p1, yamlData, true) }); err != nil {
 		fail("import error (preserved ids, same instance)", "leg (b): "+err.Error())
 		return
 	}
@@ -1407,7 +1446,7 @@ func TestVerifC15ExportImport(t *testing.T) {
 		}
 	}
 	// mixed sweep: rolling strings and values
-	mixedStep := 7
+	mixedStep := 11
 	if thorough {
 		mixedStep = 1
 	}
@@ -1487,7 +1526,7 @@ func TestVerifC15ExportImport(t *testing.T) {
 		d3 := byDepth(verifC15Shapes(3, 2), 3)
 		rng := rand.New(rand.NewSource(seed))
 		perm := rng.Perm(len(d3))
-		ns := 10
+		ns := 6
 		for i := 0; i < ns && i < len(perm); i++ {
 			rot, off := rng.Intn(3), rng.Intn(N)
 			add("shape-plain", d3[perm[i]], rot, off)
@@ -1502,7 +1541,7 @@ func TestVerifC15ExportImport(t *testing.T) {
 		genLen = 3
 	}
 
-	rule := fmt.Sprintf("tier=%v. Every tree is built below a fresh group node of ONE test server. "+
+	rule := fmt.Sprintf("tier=%v. Every tree is built below a fresh group node of one test server (quick: ONE server, plus one second instance for leg (c), for the whole run; thorough: a fresh pair every 150 trees, one pair at a time, because every store read scans all points ever written). "+
 		"Node types rotate over {group,variable,device} by preorder index + rotation. Corpus = %v strings (labels: %v); plain sub-corpus = those without YAML-significant or non-ASCII content (%v). "+
 		"Values = {0,1,-1.5,1e300,1e-300,float64(MaxInt64),1e6}; benign values = {0,1,-1.5}. Decoration of a node (strings s(k), values v(k)): "+
 		"dense = description s(0), value v(0), vcEmptyKey[\"\"] s(1), vcZeroKey[\"0\"] s(2), vcArr[0],[1] s(3),[2] s(4), vcMap[a] s(5),[b] s(6), "+
@@ -1535,24 +1574,6 @@ func TestVerifC15ExportImport(t *testing.T) {
 	// ---- pure YAML leg
 	res.YamlLeg = verifC15YamlLeg(corpus, genLen, agg)
 
-	// ---- servers
-	nc, root, stop, err := verifC15Start()
-	if err != nil {
-		t.Fatalf("cannot start the test server: %v", err)
-	}
-	defer stop()
-	env := &verifC15Env{nc: nc, root: root.ID, byText: byText, agg: agg}
-	if os.Getenv("VERIF_C15_NOSECOND") == "" {
-		nc2, root2, stop2, err := verifC15Start("2")
-		if err != nil {
-			t.Fatalf("cannot start the second test server: %v", err)
-		}
-		defer stop2()
-		env.nc2, env.root2 = nc2, root2.ID
-	} else {
-		res.Legs = "a,b"
-	}
-
 	// ---- run
 	for _, cs := range cases {
 		h := sha256.Sum256([]byte(verifC15Render(cs.Top, true)))
@@ -1576,32 +1597,78 @@ func TestVerifC15ExportImport(t *testing.T) {
 		res.Samples = append(res.Samples, s)
 	}
 
-	ch := make(chan *verifC15Case)
-	var wg sync.WaitGroup
-	var legMu sync.Mutex
-	for w := 0; w < workers; w++ {
-		wg.Add(1)
-		go func() {
-			defer wg.Done()
-			for cs := range ch {
-				l := verifC15RunCase(env, cs)
-				legMu.Lock()
-				res.TreeLegs += l
-				res.Trees++
-				legMu.Unlock()
-			}
-		}()
+	// ---- servers and run. Quick: ONE server (plus one second instance for leg (c)) for the whole
+	// run. Thorough: the store reads scan every point ever written (no index on node_points.node_id),
+	// so the pair of servers is replaced by a fresh pair every `restart` trees to keep the run
+	// within its time budget; never more than one pair is alive.
+	restart := 0
+	if thorough {
+		restart = 150
+	}
+	if s := os.Getenv("VERIF_C15_RESTART"); s != "" {
+		if v, err := strconv.Atoi(s); err == nil && v >= 0 {
+			restart = v
+		}
+	}
+	second := os.Getenv("VERIF_C15_NOSECOND") == ""
+	if !second {
+		res.Legs = "a,b"
 	}
 	progress := os.Getenv("VERIF_C15_PROGRESS") != ""
 	tRun := time.Now()
-	for i, cs := range cases {
-		ch <- cs
-		if progress && i%20 == 19 {
-			fmt.Fprintf(os.Stderr, "C15 progress: %v/%v cases dispatched, %.1fs (phase %v)\n", i+1, len(cases), time.Since(tRun).Seconds(), cs.Phase)
+	var legMu sync.Mutex
+	runGen := func(gen []*verifC15Case, done int) {
+		nc, root, stop, err := verifC15Start()
+		if err != nil {
+			t.Fatalf("cannot start the test server: %v", err)
+		}
+		defer stop()
+		env := &verifC15Env{nc: nc, root: root.ID, byText: byText, agg: agg}
+		if second {
+			nc2, root2, stop2, err := verifC15Start("2")
+			if err != nil {
+				t.Fatalf("cannot start the second test server: %v", err)
+			}
+			defer stop2()
+			env.nc2, env.root2 = nc2, root2.ID
+		}
+		ch := make(chan *verifC15Case)
+		var wg sync.WaitGroup
+		for w := 0; w < workers; w++ {
+			wg.Add(1)
+			go func() {
+				defer wg.Done()
+				for cs := range ch {
+					l := verifC15RunCase(env, cs)
+					legMu.Lock()
+					res.TreeLegs += l
+					res.Trees++
+					legMu.Unlock()
+				}
+			}()
+		}
+		for i, cs := range gen {
+			ch <- cs
+			if progress && (done+i)%20 == 19 {
+				fmt.Fprintf(os.Stderr, "C15 progress: %v/%v cases dispatched, %.1fs (phase %v)\n", done+i+1, len(cases), time.Since(tRun).Seconds(), cs.Phase)
+			}
+		}
+		close(ch)
+		wg.Wait()
+	}
+	if restart <= 0 || restart >= len(cases) {
+		runGen(cases, 0)
+		res.ServerPairs = 1
+	} else {
+		for lo := 0; lo < len(cases); lo += restart {
+			hi := lo + restart
+			if hi > len(cases) {
+				hi = len(cases)
+			}
+			runGen(cases[lo:hi], lo)
+			res.ServerPairs++
 		}
 	}
-	close(ch)
-	wg.Wait()
 
 	// ---- result
 	res.Evaluations = res.TreeLegs + res.YamlLeg
